@@ -49,8 +49,6 @@ import (
 	"go/token"
 	"go/types"
 	"log"
-
-	"gosym/smt"
 	"os"
 	"runtime"
 	"slices"
@@ -763,12 +761,15 @@ func symIndexRead(xs []value, idx value) value {
 		return xs[cur.concretizeIndex(x, n)]
 	}
 	k, _ := kindOf(xs[0])
-	r := toTerm(xs[n-1])
-	w := x.t.W
+	var r value = xs[n-1]
 	for j := n - 2; j >= 0; j-- {
-		r = smt.Ite(smt.Eq(x.t, smt.Const(w, uint64(j))), toTerm(xs[j]), r)
+		r = iteValue(eqConst(x.t, x.k, uint64(j)), xs[j], r)
 	}
-	return fromTerm(r, k)
+	if _, ok := kindOf(r); !ok {
+		panic("symIndexRead: non-scalar")
+	}
+	_ = k
+	return r
 }
 
 // choice forks over n alternatives and returns the chosen index.
@@ -778,7 +779,7 @@ func (c *PathCtx) choice(tag string, n int) int {
 	}
 	c.fresh++
 	v := c.newInput(fmt.Sprintf("%s#%d", tag, c.fresh), types.Uint8).(sv)
-	c.assume(smt.ULt(v.t, smt.Const(8, uint64(n))))
+	c.assume(rangeTerm(v, n))
 	return c.concretizeIndex(v, n)
 }
 
